@@ -768,8 +768,8 @@ Lemma ex_cs_valid : cs_valid ex_cs.
 Proof.
   unfold cs_valid, ex_cs, is_byte. cbn [cs_cores cs_states cs_linkmask cs_rtr cs_ip cs_eth fst snd].
   repeat split; try lia; try reflexivity.
-  - repeat constructor; unfold app_states; cbn [In]; lia.
-  - repeat constructor; lia.
+  - repeat (apply Forall_cons; [unfold app_states; cbn [In]; lia|]). apply Forall_nil.
+  - repeat (apply Forall_cons; [lia|]). apply Forall_nil.
 Qed.
 
 Lemma ex_cs_decodes :
@@ -793,7 +793,7 @@ Lemma ex_machine_hypotheses :
 Proof.
   split; [|split; [|split; [|split]]].
   - intros c. unfold ex_route. destruct (chip_eqb c (0, 0)); [lia|]. destruct (chip_eqb c (1, 1)); [lia|].
-    apply Z.mod_pos_bound. lia.
+    pose proof (Z.mod_pos_bound (fst c + snd c) 6). lia.
   - reflexivity.
   - intros off n Ho Hn Hle. unfold ex_rd.
     replace (RTR_P2P + off =? SV_BASE + SV_P2P_DIMS) with false
@@ -820,10 +820,10 @@ Lemma ex_chain : chain_at ex_iobuf_rd 4 1611661312 [ex_b1; ex_b2].
 Proof.
   cbn [chain_at]. split; [reflexivity|]. split; [discriminate|]. exists 1611661412.
   unfold is_word. cbn [b_time b_ms b_length b_payload ex_b1 length].
-  repeat (split; [lia || reflexivity|]).
+  do 7 (split; [lia || reflexivity|]). split; [reflexivity|].
   split; [reflexivity|]. split; [discriminate|]. exists 0.
   cbn [b_time b_ms b_length b_payload ex_b2 length].
-  repeat (split; [lia || reflexivity|]). reflexivity.
+  do 7 (split; [lia || reflexivity|]). split; reflexivity.
 Qed.
 
 Lemma ex_chain_walk : iobuf_walk 3 ex_iobuf_rd 4 1611661312 = Ok [104; 105; 10; 111; 107; 33; 10].
